@@ -20,6 +20,10 @@ value the public API can build.  Callbacks are arbitrary Lean functions of the
 calls made so far, the path and the value.
 -/
 import CtyModel.Lemmas.WalkPre
+import CtyModel.Lemmas.d19Hash
+import CtyModel.Lemmas.d19Inj
+import CtyModel.Lemmas.d19Members
+import CtyModel.Lemmas.d19Complete
 import CtyModel.Lemmas.WalkStepsShape
 import CtyModel.Lemmas.WalkPathSet
 import CtyModel.Lemmas.WalkTrans
@@ -431,6 +435,190 @@ example : ∀ q0, pathAt X0 sampleList [1] = some q0 → ∀ log v', sampleCb lo
   rfl
 example : (transform X0 Sched.sorted sampleCb sampleList).2 =
     .ok ⟨.list .string, .seq [.s "a", .s "z"]⟩ := by rfl
+
+/-! ## d19 — deepening along the audit (audit/audit-C15-C20.md, section C19) -/
+
+/-- **"the value and each nested member", counted independently** (audit item 2).
+`walk_preorder_once` speaks of the positions `nodeAt` knows, and `nodeAt` is defined
+through the `children` that `walk` itself iterates.  `nodes` counts the nested
+members of a payload by recursion on the payload alone (slice elements of a list
+/ tuple, map values of a map / object, stored members of a set; nothing below
+null, unknown, primitives, capsules; a marker has what it wraps) — no `children`,
+no iteration oracle.  On every shaped value `Walk` with a descending callback
+makes exactly that many visits; together with `walk_preorder_once` (no position
+twice) and `walk_paths_lead_back` (each visit is the member its path names) no
+kind of member can be left out. -/
+theorem walk_visits_count {X : SetOracle} (hX : IterPerm X) (root : Value)
+    (hs : shapedV root = true) : (walk X descend root).1.length = nodes root.v := by
+  rw [walk_eq_preorder hX]
+  simp [preorder_length hX root hs]
+
+/-- **Under which steps the members are reported**, by type and payload (audit
+item 2, "missing theorem (b)"): a known non-null list of `n` elements / tuple of
+`n` element types reports the index steps `NumberIntVal(0 … n-1)` in that order, a
+map the index steps `StringVal(key)` in key order, an object the attribute steps of
+the attributes of its TYPE, a set its members in iteration order, each as its own
+key; everything else has no members. -/
+theorem walk_member_steps (X : SetOracle) (v : Value) (hs : shapedV v = true)
+    (hnull : v.isNull = false) (hknown : v.isKnown = true) : StepsSpec X v (kids X v) :=
+  kids_steps_spec X v hs hnull hknown
+
+/-- `walk_any_callback_sublist` as the implication it is (audit item 5) -/
+theorem walk_any_callback_sublist_of_iterPerm {X : SetOracle} (hX : IterPerm X) (cb : WalkCb)
+    (root : Value) : (walk X cb root).1.Sublist (walk X descend root).1 := by
+  rw [walk_eq_preorder hX]
+  exact walk_sublist_preorder X cb root
+
+/-- **A path outside sets names one position** (audit item 5): if the way to `r0`
+does not go through a set, no other position of the value has the path of `r0`.
+(Below a set the step key is the member itself and `Path.Apply` cannot address it;
+those positions are outside this statement, as they are outside `walk_paths_lead_back`.) -/
+theorem walk_path_names_one_position {X : SetOracle} (hX : IterPerm X) (root : Value)
+    (hs : shapedV root = true) (r0 r : Pos) (q : Path) (hns : noSetAt X root r0 = true)
+    (h0 : pathAt X root r0 = some q) (h : pathAt X root r = some q) : r = r0 :=
+  pathAt_inj_noSet hX r0 r root q hs hns h0 h
+
+/-- **Replace one member, with the callback the correspondence runs** (audit item
+5: `transform_replace_one` takes two hypotheses about the callback that are
+jointly satisfiable only because paths identify positions).  `atPathCb q0 x` —
+"return `x` at path `q0`, the given value anywhere else" — is the denotation of the
+harness rule `(at q0 (ret x))` (`Driver/HWalk.decTRules`, `harness/c19.go` predicate
+`transform-replace`).  For every position `r0` outside sets, with `q0` its path,
+that callback meets both hypotheses, so the conclusion of `transform_replace_one`
+holds outright. -/
+theorem transform_replace_at_path {X : SetOracle} (hX : IterPerm X) {σ : Sched} (hσ : SchedOk σ)
+    (v x n : Value) (r0 : Pos) (q0 : Path) (hg : Good X v)
+    (hn : nodeAt X v r0 = some n) (hq : pathAt X v r0 = some q0) (hns : noSetAt X v r0 = true)
+    (hx : x.ty = n.ty) :
+    ∃ log, transform X σ (atPathCb q0 x) v = (log, .ok (replaceAt X v r0 x)) ∧
+      nodeAt X (replaceAt X v r0 x) r0 = some x ∧
+      ∀ r, ¬ r0 <+: r → ¬ r <+: r0 → nodeAt X (replaceAt X v r0 x) r = nodeAt X v r := by
+  obtain ⟨h1, h2⟩ := atPathCb_hyps hX v x r0 q0 hg.shaped hns hq
+  exact transform_replace_one hX hσ (atPathCb q0 x) v x n r0 hg hn hns hx h1 h2
+
+example : (transform X0 Sched.sorted (atPathCb [.index (Value.intVal 1)] ⟨.string, .s "z"⟩) sampleList).2 =
+    .ok ⟨.list .string, .seq [.s "a", .s "z"]⟩ := by decide
+
+/-- **Hash coherence of `pathSetRules`, for ALL paths**: whenever `Equivalent(p, q)`
+answers true — whatever the index keys are: marked or not, of any type, known,
+unknown or null — `Hash(p) = Hash(q)`.  (`Hash` writes the attribute names and one
+placeholder byte per index step; `Equivalent` is true only for paths that agree in
+length, step kinds and attribute names.)  A `Hash` that folds anything of an index
+key into the sum — so that `m["k"]` and `m[StringVal("k").Mark(x)]`, or `[1]` and
+`[1.0]`, land in different buckets — falsifies this theorem for the model that
+follows it. -/
+theorem pathset_hash_coherent (p q : Path) (h : PathSet.equiv p q = .ok true) :
+    PathSet.hash p = PathSet.hash q :=
+  PathSet.hash_eq_of_equiv p q h
+
+/-- …for the `set.Rules` value `NewPathSet` hands to `set.NewSet` -/
+theorem pathset_rules_hash_coherent (p q : Path) (h : PathSet.pathRules.equiv p q = true) :
+    PathSet.pathRules.hash p = PathSet.pathRules.hash q :=
+  PathSet.pathRules_hash_eq p q h
+
+/-- …and what it buys: after `Add(p)` on a fresh set, `Has(q)` is true for every `q`
+that `Equivalent` identifies with `p` — the lookup goes to the bucket `p` was filed
+in.  No restriction on the keys. -/
+theorem pathset_has_equivalent_after_add (p q : Path) (h : PathSet.pathRules.equiv q p = true) :
+    SetImpl.has PathSet.pathRules (SetImpl.add PathSet.pathRules SetImpl.empty p) q = true :=
+  PathSet.has_singleton_of_equiv p q h
+
+/-- a marked key and its plain twin, and `1` against `1.0` (another precision): equivalent,
+same hash, found -/
+example :
+    let mk : Path := [.getAttr "a", .index ⟨.string, .marked ["m"] (.s "k")⟩]
+    let pl : Path := [.getAttr "a", .index (Value.strVal "k")]
+    PathSet.equiv mk pl = .ok true ∧ PathSet.hash mk = PathSet.hash pl ∧
+      SetImpl.has PathSet.pathRules (SetImpl.add PathSet.pathRules SetImpl.empty mk) pl = true :=
+  ⟨rfl, pathset_hash_coherent _ _ rfl, pathset_has_equivalent_after_add _ _ rfl⟩
+example :
+    let a : Path := [.index ⟨.number, .n (.fin false 1 0 64)⟩]
+    let b : Path := [.index ⟨.number, .n (.fin false 1 0 512)⟩]
+    PathSet.equiv a b = .ok true ∧ PathSet.hash a = PathSet.hash b :=
+  ⟨by decide, pathset_hash_coherent _ _ (by decide)⟩
+
+/-- **The full statement about `pathSetRules`** — the contract of `cty/set/rules.go`
+(`Equivalent` an equivalence, equivalent values hash alike) for every path — is
+false of the code… -/
+def PathRulesLawful : Prop := PathSet.pathRules.Lawful
+
+/-- …because of reflexivity on unknown keys only (`pathset_unknown_key_counterexample`). -/
+theorem pathRules_lawful_counterexample : ¬ PathRulesLawful := fun h => by
+  have := h.refl [.index (Value.unknown .number)]
+  exact absurd this (by decide)
+
+/-- The strongest true part, about the very `Rules` value the code uses (not a
+restriction of it): on the carrier of paths with known number / string keys,
+marked or not, it is lawful (`pathset_rules_lawful` is this statement on the
+subtype); and the hash clause holds on ALL paths (`pathset_rules_hash_coherent`). -/
+theorem pathRules_lawful_partial :
+    PathSet.pathRules.LawfulOn (fun p => PathSet.keysOk p = true) where
+  refl a ha := PathSet.goodRules_lawful.refl ⟨a, ha⟩
+  symm a b ha hb := PathSet.goodRules_lawful.symm ⟨a, ha⟩ ⟨b, hb⟩
+  trans a b c ha hb hc := PathSet.goodRules_lawful.trans ⟨a, ha⟩ ⟨b, hb⟩ ⟨c, hc⟩
+  hash_eq a b _ _ h := pathset_rules_hash_coherent a b h
+
+/-- **No existing member is left out** (audit item 2, the converse of
+`walk_paths_lead_back`, one level at a time and hence at every depth).  Let `Walk`
+with a descending callback visit a known member `n` under path `p`, and let `s` be
+any step that names an existing member of `n` — `stepExists`, the predicate by which
+`IndexStep.Apply` / `GetAttrStep.Apply` succeed (`apply_step_ok_iff_exists`), with a
+known key of any representation (marked, another precision).  Then `Walk` also makes
+a visit under `p ++ [s']` where `s'` names the same member as `s` (`sameStep`: same
+attribute, number keys denoting the same index, string keys with the same
+content).  "Member" here is what path application can reach — not the model's own
+`children`. -/
+theorem walk_visits_every_existing_member {X : SetOracle} (hX : IterPerm X) (root : Value)
+    (hs : shapedV root = true) (p : Path) (n : Value) (hv : (p, n) ∈ (walk X descend root).1)
+    (s : PathStep) (hknown : n.isKnown = true)
+    (hk : (match s with | .index k => k.isKnown | .getAttr _ => true) = true)
+    (h : stepExists s n = true) :
+    ∃ s' m, (p ++ [s'], m) ∈ (walk X descend root).1 ∧ sameStep s s' = true := by
+  rw [walk_eq_preorder hX] at hv ⊢
+  obtain ⟨e, he, hev⟩ := List.mem_map.mp hv
+  simp only [Node.visit, Prod.mk.injEq] at hev
+  obtain ⟨rfl, rfl⟩ := hev
+  obtain ⟨e', he', s', hp', hss⟩ := preorder_has_kid hX root hs e he s hknown hk h
+  exact ⟨s', e'.2.2, List.mem_map.mpr ⟨e', he', by simp [Node.visit, hp']⟩, hss⟩
+
+/-- the sample's list `a` has a member at index 1 whichever way the key is written -/
+example : stepExists (.index ⟨.number, .marked ["k"] (.n (.fin false 1 0 512))⟩)
+      ⟨.list .string, .seq [.s "x", .marked ["m2"] (.s "y"), .unk .unref]⟩ = true ∧
+    sameStep (.index ⟨.number, .marked ["k"] (.n (.fin false 1 0 512))⟩) (.index (Value.intVal 1)) = true := by
+  decide
+
+/-! ### why `transform_id_partial` carries `SetsStable` (audit item 3) -/
+
+/-- an oracle whose sets iterate in string order whatever the storage order (as cty's
+do: `Values` sorts by `Less`), all members in one bucket -/
+def X2 : SetOracle :=
+  ⟨fun _ _ => 0, fun _ _ ms => SetImpl.sortStable
+    (fun a b => match a, b with | .s x, .s y => decide (x < y) | _, _ => false) ms⟩
+
+/-- a set stored against its iteration order (what hash-tied members added in
+descending order look like) -/
+def tiedSet : Value := ⟨.set .string, .sset [0, 0] [.s "q", .s "p"]⟩
+
+/-- The conclusion of `transform_id_partial` in the form "returns the value ITSELF",
+for every shaped value of a plain well-formed type — without `SetsStable` — is
+false of the model (and of the code: the rebuilt set is another representation)… -/
+def TransformIdReturnsInput : Prop :=
+  ∀ (X : SetOracle) (σ : Sched) (v : Value), IterPerm X → SchedOk σ → shapedV v = true →
+    tyOk v.ty = true → (transform X σ idCb v).2 = .ok v
+
+theorem transform_id_returns_input_counterexample : ¬ TransformIdReturnsInput := fun h => by
+  have := h X2 Sched.sorted tiedSet (fun _ _ _ => SetImpl.sortStable_perm _ _) schedOk_sorted
+    (by decide) (by decide)
+  exact absurd this (by decide)
+
+/-- …while what the property asks — a `RawEquals` value — does hold on that witness:
+the members come back in the other storage order, the two representations iterate
+alike.  For sets like this one at arbitrary depth the `RawEquals` form is compared
+with the implementation on every run (generator `c19TiedSet`, predicate
+`transform-id`) but is NOT proved: `transform_id_rawEquals_partial` still assumes
+`SetsStable`. -/
+example : (transform X2 Sched.sorted idCb tiedSet).2 = .ok ⟨.set .string, .sset [0, 0] [.s "p", .s "q"]⟩ ∧
+    Value.rawEquals X2 ⟨.set .string, .sset [0, 0] [.s "p", .s "q"]⟩ tiedSet = .ok true := by decide
 
 example : (unmarkDeepWithPaths X1 Sched.sorted sample).map (·.2.length) = .ok 2 := by rfl
 
